@@ -65,6 +65,13 @@ def gen_lines(rng, quick):
             if kt == 0 and rng.random() < 0.8:
                 key = rand_pw(rng, rng.choice([0, 1, 8, 20, 64, 100]))
             lines.append(f"keytype {code} {gens.hx(key)} {gens.hx(eng)}")
+    # the same secret under both digests, back to back in one process (anything cached must be keyed by the digest too)
+    for _ in range(20 if quick else 400):
+        pw = rand_pw(rng, rng.choice([1, 8, 13, 33]))
+        eng = bytes(rng.getrandbits(8) for _ in range(rng.choice([0, 5, 12])))
+        order = rng.choice([(1, 2), (2, 1), (1, 2, 1), (2, 1, 2)])
+        for alg in order:
+            lines.append(f"keytype {alg} {gens.hx(pw)} {gens.hx(eng)}")
     return lines
 
 
@@ -196,9 +203,13 @@ def run(chk, model_ok=True):
         priv = rng.choice([0, 1, 2])
         akt, pkt = rng.choice(["password", "master", "localized"]), rng.choice(["password", "master", "localized"])
         peer = sessions.rand_v3_peer(rng, auth=auth, priv=priv)
+        if k % 2 == 0 or k == 0:
+            pair_pw = (rand_pw(rng, rng.choice([1, 8, 13, 64, 100])), rand_pw(rng, rng.choice([1, 8, 13, 64, 100])))
+        else:
+            auth = 3 - prev_auth          # the same secrets as the previous session, the other digest
+        prev_auth = auth
         peer = e2e.Peer("v3", auth=auth, priv=priv, engine_id=peer.state.engine_id, user=peer.state.user.decode(),
-                        auth_pw=rand_pw(rng, rng.choice([1, 8, 13, 64, 100])), priv_pw=rand_pw(rng, rng.choice([1, 8, 13, 64, 100])),
-                        auth_kt=akt, priv_kt=pkt)
+                        auth_pw=pair_pw[0], priv_pw=pair_pw[1], auth_kt=akt, priv_kt=pkt)
         stt = peer.state
         KT = {"password": KeyType.Password, "master": KeyType.Master, "localized": KeyType.Localized}
         ak = (Md5Key if auth == 1 else Sha1Key)(stt.auth_secret, key_type=KT[akt])
